@@ -28,7 +28,7 @@ MASK = '****'
 
 TOK = st.text('abcdefghijkmnopqrstuvwxyzABCDEFGHJKLMNPQRSTUVWXYZ23456789', min_size=5, max_size=8)
 SPECIAL = st.lists(st.sampled_from(['!', ':', '/', '?', '#', '$', '&', "'", '(', ')', '*', '+', '=', '%40', '%3A', '%20', '-', '.', '_', '~', '!!', '!x']),
-                   min_size=0, max_size=3).map(''.join)
+                   min_size=0, max_size=3).map(''.join).filter(lambda m: not __import__('re').search(r'!(no-)?[A-Za-z_]\w*\s*=', m))  # a password piece after '!' that reads like 'name=' IS an option in this syntax (documented ambiguity)
 SCHEMES_ANY = ['rtsp', 'rtmp', 'http', 'https', 's3', 'file', 'mqtt', 'ftp', 'x-cam+v1.2']
 
 
@@ -49,7 +49,7 @@ def mask_case(draw):
     return {'cred': c, 'scheme': draw(st.sampled_from(SCHEMES_ANY)), 'port': draw(st.sampled_from(['', ':554', ':8080'])),
             'path': draw(st.sampled_from(['', '/', '/a/b.mp4', '/x?y=1#frag'])),
             'prefix': draw(st.sampled_from(['', 'video open: ', 'tcp://localhost:5550, ', 'rtsp://other.host/path, ', '[\''])),
-            'suffix': draw(st.sampled_from(['', ' (30 fps)', '!sync;main', ', file:///tmp/x.mp4', '\']']))}
+            'suffix': draw(st.sampled_from(['', ' (30 fps)', '!sync;main', ', file:///tmp/x.mp4', '\']'])), 'two': draw(st.booleans())}
 
 
 CLASSES = ['Base', 'Util', 'VideoIn', 'VideoOut', 'ImageIn', 'ImageOut', 'MQTTOut', 'REST', 'Webvis', 'Recorder']
@@ -73,6 +73,8 @@ def config_case(draw):
         case['key'] = draw(st.sampled_from(['model_uri', 'upload_to', 'webhook', 'extra_cfg', 'camera']))
         case['nest'] = draw(st.lists(st.sampled_from(['list', 'tuple', 'dict', 'adict', 'commastr']), max_size=3))
     case['lineage'] = draw(st.booleans())
+    case['two'] = draw(st.booleans())
+    case['embed'] = draw(st.booleans())     # with fail: make normalisation fail with an error whose message quotes the source
     return case
 
 
@@ -177,11 +179,17 @@ def build_config(case):
     c = case['cred']
     cfg = dict(BASE_CFG[case['cls']])
     uri = uri_of(c, case['scheme'])
-    other = f"{case['scheme']}://plain.example.com/other"
+    # the second URI of multi-URI forms carries a credential too (same tokens, other host): every occurrence must be masked
+    other = uri_of(c, case['scheme'], host='second.example.com', path='/other') if case.get('two') else f"{case['scheme']}://plain.example.com/other"
+    embed = case['fail'] and case.get('embed') and case['where'] == 'io'
+    if embed and case['cls'] == 'VideoOut':
+        uri = uri_of(c, 'http')           # "this filter only accepts video file:// and rtsp:// outputs, not '<uri>'"
     if case['where'] == 'io':
         key = 'sources' if case['cls'] == 'VideoIn' else 'outputs'
         field = 'source' if case['cls'] == 'VideoIn' else 'output'
         text = uri + case['opts']
+        if embed and case['cls'] == 'VideoIn':
+            text = uri + '!bogusopt' + case['opts']     # "unknown option 'bogusopt' in <source record>"
         form = case['form']
         topic = 'cam' if ';' in case['opts'] else 'main'
         if form == 'str':
@@ -202,6 +210,12 @@ def build_config(case):
             val = [other, val] if n == 'list' else (val, 7) if n == 'tuple' else {'inner': val, 'n': 1} if n == 'dict' else \
                 utils.adict(inner=val) if n == 'adict' else (f'{other}, {val}' if isinstance(val, str) else [val])
         cfg[case['key']] = val
+    if embed:
+        if case['cls'] == 'VideoIn':
+            for rec in cfg[key] if isinstance(cfg[key], list) else []:
+                if isinstance(rec, dict) and rec.get(field) == uri:
+                    rec['options'] = {'bogusopt': 1}
+        return cfg
     if case['fail']:
         k, v = FAIL_KEY[case['cls']]
         if v is None:
@@ -241,11 +255,15 @@ def run_config(case):
                'normalisation fails' if case['fail'] else 'normalisation ok']
     flt.MQ = _M['StubMQ']
     try:
-        try:
+        if case['fail']:
+            # through Filter.run, as a deployment would: run() logs the exception it re-raises
+            try:
+                cls.run(cfg, sig_stop=False)
+            except ValueError:
+                pass
+            stage = 'run (failing configuration)'
+        else:
             f = cls(cfg)
-        except ValueError:
-            if not case['fail']:
-                raise
         if f is not None and not case['fail']:
             if case['lineage']:
                 stage = 'init'
@@ -309,6 +327,8 @@ def run_mask(case):
     c = case['cred']
     uri = uri_of(c, case['scheme'], port=case['port'], path=case['path'])
     text = case['prefix'] + uri + case['suffix']
+    if case.get('two'):
+        text += ', ' + uri_of(c, case['scheme'], host='second.example.com')
     classes = ['single uri' if not case['prefix'] and not case['suffix'] else 'embedded uri']
     for fn in (utils.hide_uri_users_and_pwds, utils.hide_uri_pwds):
         try:
@@ -319,7 +339,7 @@ def run_mask(case):
         for tok in toks:
             if tok in out:
                 return bad(f'{fn.__name__}({text!r}) = {out!r} still shows part of the credential', f'mask-leak:{fn.__name__}', classes)
-        if not case['prefix'] and not case['suffix']:
+        if not case['prefix'] and not case['suffix'] and not case.get('two'):
             shown = c['user'] + ':' + MASK if fn is utils.hide_uri_pwds else MASK
             exp = f"{case['scheme']}://{shown}@cam.example.com{case['port']}{case['path']}"
             if out != exp:
